@@ -83,4 +83,109 @@ theorem C22_safe_counterexample_write_only :
       ⟨0, ⟨false, 0⟩, none⟩ = .error .dirtyRead := by
   rfl
 
+/-- what the previous writer is statically known to leave clean (`gen_mark_halos_clean_dirty`
+starting from a dirty halo) -/
+def cleanAfter (H : Nat) (w : WriteInfo) : Nat := recAfter H w 0
+
+theorem evalDepths_single (H : Nat) (env : Nat → Nat) (d : HaloDepth) :
+    evalDepths H env [d] = evalDepth H env d := by
+  simp [evalDepths]
+
+theorem required_sound (cfg : Cfg) (req : List HaloDepth) (w : WriteInfo) (kn : Bool)
+    (h : required cfg req (some w) = (false, kn)) :
+    (∃ r0, req = [r0] ∧ r0.annexedOnly = true ∧
+        (cfg.annexed = true ∨ (w.lit = 1 ∧ w.dirtyOuter = true ∧ w.maxDepth = false))) ∨
+    (w.maxDepth = true ∧ w.dirtyOuter = false) ∨
+    (∀ H env, evalDepths H env req ≤ cleanAfter H w) := by
+  obtain ⟨l, m, d⟩ := w
+  rcases req with _ | ⟨r0, _ | ⟨r1, rs⟩⟩
+  · -- empty requirement list
+    right; right
+    intro H env
+    simp [evalDepths]
+  · obtain ⟨rl, rv, rm, rm1, ra⟩ := r0
+    simp only [evalDepths_single]
+    cases m <;> cases d <;> cases ra <;> cases rm <;> cases rm1 <;> cases rv <;>
+      simp [required] at h <;> (repeat' (split at h)) <;>
+      simp_all [evalDepth, cleanAfter, recAfter] <;> (try omega)
+  · cases m <;> cases d <;> simp [required] at h <;> (repeat' (split at h)) <;> simp_all
+
+/-- non-vacuity of `required_sound`: a writer to depth 2 of a discontinuous field, a reader of
+literal depth 2: no exchange, and indeed 2 ≤ 2. -/
+example : required ⟨false⟩ [⟨2, none, false, false, false⟩] (some ⟨2, false, false⟩) = (false, true) ∧
+    evalDepths 3 (fun _ => 1) [⟨2, none, false, false, false⟩] ≤ cleanAfter 3 ⟨2, false, false⟩ := by
+  decide
+
+/-- with the fix, a `max_depth-1` requirement after a writer to literal depth 1 keeps its
+(run-time checked) exchange; the pinned code returned `(false, true)` here. -/
+example : required ⟨true⟩ [⟨0, none, false, true, false⟩] (some ⟨1, false, false⟩) = (true, false) := by
+  decide
+
+/-- **A halo exchange establishes its depth** whether or not it is guarded by `is_dirty`
+(`known` only matters for efficiency): afterwards the halo is clean to the computed depth, the
+recorded state is still conservative and the state well formed. -/
+theorem C22_hex_establishes (H : Nat) (env : Nat → Nat) (cont : Bool) (f : Nat)
+    (ds : List HaloDepth) (chk : Bool) (s s' : RState)
+    (hwf : s.recorded ≤ s.act.cd) (hann : s.act.cd = 0 ∨ s.act.ann = true)
+    (h : stepF H env cont f s (.hex .sync f ds chk) = .ok s') :
+    evalDepths H env ds ≤ s'.act.cd ∧ s'.recorded ≤ s'.act.cd ∧
+    (s'.act.cd = 0 ∨ s'.act.ann = true) := by
+  obtain ⟨r, ⟨a, cd⟩, infl⟩ := s
+  simp only [stepF] at h
+  simp at hwf hann
+  have h0 : ¬ (cd < r) := by omega
+  cases infl <;> simp [h0] at h
+  subst h
+  by_cases hd : evalDepths H env ds = 0
+  · simp [exchanged, hd]
+    exact ⟨hwf, hann⟩
+  · cases chk <;> simp [exchanged, hd]
+    · refine ⟨by omega, by omega⟩
+    · by_cases hr : r < evalDepths H env ds
+      · simp [hr, hd]; refine ⟨by omega, by omega⟩
+      · simp [hr]; refine ⟨by omega, by omega, hann⟩
+
+/-- **Aggregating read requirements is sound, step by step** (`_create_depth_list`): merging the
+requirement `l + var` of one more reader into the list never lowers the depth of the exchange,
+and the resulting depth covers that reader — for every halo depth and all extents. -/
+theorem C22_depth_merge_sound (H : Nat) (env : Nat → Nat) (acc : List HaloDepth) (v : Option Nat)
+    (l : Nat) (hacc : AccNorm acc) :
+    evalDepths H env acc ≤ evalDepths H env (mergeDepth acc v l) ∧
+    l + envv env v ≤ evalDepths H env (mergeDepth acc v l) ∧
+    AccNorm (mergeDepth acc v l) :=
+  ⟨mergeDepth_mono H env v l acc, mergeDepth_new H env v l acc hacc, mergeDepth_norm v l acc hacc⟩
+
+/-- non-vacuity: `max(3, ext+1)` from readers needing 3, `ext+1` and 2 -/
+example : mergeDepth (mergeDepth (mergeDepth [] none 3) (some 7) 1) none 2 =
+    [⟨3, none, false, false, false⟩, ⟨1, some 7, false, false, false⟩] := by decide
+
+/-- known finding `C22-inc-to-max-depth-h1` on the model: redundant computation to the maximum
+depth for a `GH_INC` kernel, mesh halo depth 1, annexed dofs dirty on entry. -/
+theorem C22_safe_counterexample_inc_max_h1 :
+    runF 1 (fun _ => 1) true 1
+      (lower ⟨false⟩ ((rcEdit ⟨false⟩ (placeInvoke ⟨false⟩
+        [⟨false, [⟨1, .inc, false, none⟩, ⟨3, .read, true, none⟩]⟩]) 2 none).getD []))
+      ⟨0, ⟨false, 0⟩, none⟩ = .error .dirtyRead := by
+  rfl
+
+/-- the full property, for the record: every generated schedule is safe for every field, halo
+depth, extents, continuity and initial state.  It is FALSE of the pinned model (the two
+counterexamples above); what is proved instead are the component theorems
+`required_sound`, `C22_hex_establishes`, `C22_no_halo_access_sound`, `C22_marks_conservative`. -/
+def C22_safe_statement : Prop :=
+  ∀ (cfg : Cfg) (ks : List Kern) (H : Nat) (env : Nat → Nat) (cont : Bool) (f : Nat) (init : RState),
+    1 ≤ H → ExtOK env → wfState cfg cont init = true → init.inflight = none →
+    deepEnough H env (lower cfg (placeInvoke cfg ks)) = true →
+    consistentF cont f (lower cfg (placeInvoke cfg ks)) = true →
+    SafeF H env cont f (lower cfg (placeInvoke cfg ks)) init
+
+theorem C22_safe_counterexample : ¬ C22_safe_statement := by
+  intro h
+  have := h ⟨false⟩ [⟨true, [⟨0, .write, false, none⟩]⟩,
+         ⟨false, [⟨3, .write, true, none⟩, ⟨0, .read, false, none⟩]⟩] 1 (fun _ => 1) true 0
+         ⟨0, ⟨false, 0⟩, none⟩ (by decide) (fun _ => Nat.le_refl 1) (by decide) rfl (by decide) (by decide)
+  obtain ⟨s, hs⟩ := this
+  rw [C22_safe_counterexample_write_only] at hs
+  cases hs
+
 end C22
